@@ -48,7 +48,91 @@ func encOracle(e encode.Encoder, v interface{}, ref []byte, scratch *[]byte) (st
 	if s := e.GetEncodedSize(buf); s != len(enc) {
 		return "getencodedsize-with-trailing-bytes", map[string]interface{}{"GetEncodedSize": s, "len": len(enc)}
 	}
+	// The bytes Encode returned are the caller's: it may patch them in place
+	// and append to them (a write into whatever spare capacity the slice has).
+	// Neither may change what Encode answers afterwards - for this value (here)
+	// or for the values checked after it (their own layout clause). Encoders
+	// that hand their argument through (encode.Bytes) are left alone: there
+	// the result IS the value.
+	if vb, ok := v.([]byte); !ok || len(vb) == 0 || len(enc) == 0 || &vb[0] != &enc[0] {
+		for i := range enc {
+			enc[i] ^= 0xa5
+		}
+		if cap(enc) > len(enc) {
+			sp := enc[len(enc):cap(enc)]
+			for i := range sp {
+				sp[i] = 0xa5
+			}
+		}
+		again := e.Encode(v)
+		if !bytes.Equal(again, ref) {
+			return "encode-after-caller-modified-earlier-result", map[string]interface{}{"encoded": hex.EncodeToString(again), "reference": hex.EncodeToString(ref)}
+		}
+	}
 	return "", nil
+}
+
+// c15Rec is one checked (encoder object, value, reference bytes) triple kept
+// for the concurrent replay at the end of a job.
+type c15Rec struct {
+	kind string
+	e    encode.Encoder
+	v    interface{}
+	ref  []byte
+}
+
+// concurrentReplay: an encoder object is shared by every reader of a trie, so
+// Encode/Decode on ONE object from several goroutines at once must give what
+// they give alone. Returns the first disagreement.
+func concurrentReplay(recs []c15Rec, goroutines, reps int) (bad *c15Rec, what string) {
+	type res struct {
+		i    int
+		what string
+	}
+	out := make(chan res, goroutines)
+	start := make(chan struct{})
+	for g := 0; g < goroutines; g++ {
+		go func(g int) {
+			<-start
+			r := res{-1, ""}
+			defer func() {
+				if p := recover(); p != nil {
+					r.what = "panic: " + fmt.Sprint(p)
+				}
+				out <- r
+			}()
+			for rep := 0; rep < reps; rep++ {
+				for k := range recs {
+					i := (k*(2*g+1) + g*7 + rep) % len(recs)
+					rc := &recs[i]
+					r.i = i
+					enc := rc.e.Encode(rc.v)
+					if !bytes.Equal(enc, rc.ref) {
+						r.what = "Encode gave " + hex.EncodeToString(enc)
+						return
+					}
+					n, d := rc.e.Decode(rc.ref)
+					if n != len(rc.ref) || !sameDecoded(d, rc.v) {
+						r.what = fmt.Sprintf("Decode gave (%d, %s)", n, show(d))
+						return
+					}
+					if rc.e.GetSize(rc.v) != len(rc.ref) || rc.e.GetEncodedSize(rc.ref) != len(rc.ref) {
+						r.what = "sizes differ"
+						return
+					}
+				}
+			}
+			r.i = -1
+		}(g)
+	}
+	close(start)
+	for g := 0; g < goroutines; g++ {
+		r := <-out
+		if r.what != "" && bad == nil && r.i >= 0 {
+			bad, what = &recs[r.i], r.what
+		}
+	}
+	return
 }
 
 func sameDecoded(d, v interface{}) bool {
@@ -267,6 +351,7 @@ func runC15(ctx *Ctx, idx int) {
 	scratch := make([]byte, 0, 70000)
 	ref := make([]byte, 0, 16)
 	var nvals int64
+	var replayRecs []c15Rec
 	fail := func(kind, clause string, v interface{}, ex map[string]interface{}) {
 		d := map[string]interface{}{"encoder": kind, "value": show(v)}
 		for k, x := range ex {
@@ -294,8 +379,20 @@ func runC15(ctx *Ctx, idx int) {
 			fail(kind, clause, v, ex)
 			return false
 		}
+		if len(replayRecs) < 48 && (nvals <= 8 || nvals%61 == 0) {
+			replayRecs = append(replayRecs, c15Rec{kind, e, v, append([]byte{}, ref...)})
+		}
 		return true
 	}
+	defer func() {
+		if len(replayRecs) >= 2 && ctx.nviol == 0 {
+			if bad, what := concurrentReplay(replayRecs, 4, 30); bad != nil {
+				fail(bad.kind, "concurrent-use-of-one-encoder", bad.v, map[string]interface{}{"what": what, "reference": hex.EncodeToString(bad.ref),
+					"note": "4 goroutines round-tripping values through the same encoder objects; each result is correct when the call runs alone"})
+			}
+			ctx.Count("concurrent_replays", 1)
+		}
+	}()
 	ctx.Nontrivial(uint64(idx) + 1)
 	switch j.kind {
 	case "i8":
